@@ -87,6 +87,9 @@ template <class X> void run(Ctx& c, const Str& Bs, const Str& Rs, const char* ge
         // branch histogram for the evidence
         const char* br = mr.hasScheme && !(compat && mr.scheme == mb.scheme) ? "branch_scheme" : mr.hasAuth ? "branch_authority" : mr.path.empty() ? "branch_empty_path" : mr.path[0] == '/' ? "branch_abs_path" : "branch_merge";
         c.count(br);
+        // where the RFC result is a host-less path starting with "//", either form of the single "." guard segment is fine
+        { Comp Tn; resolve(mb, mr, compat, &Tn, false);
+          if (!Tn.hasAuth && Tn.path.size() >= 2 && Tn.path[0] == '/' && Tn.path[1] == '/') { Comp a1 = Tn, a2 = Tn; a1.path = "/." + Tn.path; a2.path = "./" + Tn.path; if (out == recompose(a1) || out == recompose(a2)) { expect = out; T.path = out == recompose(a1) ? a1.path : a2.path; c.count("guard_segment_results"); } } }
         if (out != expect) {
             // diagnose against the documented legacy behaviours (known findings); anything else is unexplained
             Str key = "unexplained";
